@@ -151,10 +151,10 @@ def mutate(rnd, prog, lines):
 def run(tier, replay=None):
     spec = {
         'own': ['C08'],
-        # the model is checked in its intended form (exit code deferred to the end of run()); histories for
-        # replay come from the form that describes the pinned code, which TLC must find in violation (teeth)
+        # the model is checked and replayed in its intended form (exit code remembered, taken at the end of run());
+        # the form that describes the pinned tree before the repair must be found in violation by TLC (teeth)
         'families': [{'name': 'runstop', 'programs': fam_runstop(tier == 'quick'), 'variants': {'ExitDeferred': True},
-                      'hist_programs': fam_runstop(tier == 'quick'), 'hist_variants': {'ExitDeferred': False}}],
+                      'hist_programs': fam_runstop(tier == 'quick'), 'hist_variants': {'ExitDeferred': True}}],
         'teeth': [{'name': 'runstop/pinned-exit', 'programs': fam_runstop(True), 'variants': {'ExitDeferred': False},
                    'expect': {'ConformsC08'}}],
         'random': cases, 'witness': witness, 'mutators': mutate,
